@@ -54,6 +54,8 @@ def gen(rng, tier):
         yield case
     for case in gen_wide(rng, tier):
         yield case
+    for case in gen_typed(rng, tier):
+        yield case
 
 
 def gen_long(rng, tier):
@@ -69,6 +71,18 @@ def gen_long(rng, tier):
         rle = [[[a, L + 50], [b, 300], [a, L + 50]]]
         yield {'trajs': None, 'rle': rle, 'lag': L, 'S': [a], 'F': [b], 'steps': 10000,
                'seed': rng.randrange(2**31), 'npseed': rng.randrange(2**31), 'alpha': 'huge-lag', 'mal': None, 'long': 'huge-lag'}
+
+
+def gen_typed(rng, tier):
+    for _ in range(3 if tier == 'quick' else 30):
+        # int8 / int16 lag times and events of many steps: (longest event + 2) x lag beyond that type
+        labs, akind = G.alphabet(rng, k=3)
+        lt = rng.choice(['int8', 'int8', 'int16'])
+        lag = rng.choice([3, 4, 10]) if lt == 'int8' else rng.choice([1000, 3000])
+        n = 400 if lt == 'int8' else 9000
+        t = G.traj(rng, labs, n * (lag if lt == 'int8' else 1) // (1 if lt == 'int16' else 1), sticky=0.97 if lt == 'int8' else 0.9995) + labs
+        yield {'trajs': [t], 'lag': lag, 'S': [labs[0]], 'F': [labs[2]], 'steps': 3000, 'seed': rng.randrange(2**31),
+               'npseed': rng.randrange(2**31), 'alpha': akind + '+typed-lag', 'mal': None, 'lagtype': lt}
 
 
 def gen_wide(rng, tier):
@@ -120,7 +134,7 @@ def impl(case):
     states = [int(s) for s in st.states]
     out = {'states': states}
     if len(trajs[0]) < 100000:
-        c07.related(trajs, case['lag'], lambda d: mh.msm.estimate_waiting_times(d, case['lag'], case['S'], case['F'], 5))
+        c07.related(trajs, case['lag'], lambda d: mh.msm.estimate_waiting_times(trajs=d, lagtime=case['lag'], start=case['S'], final=case['F'], steps=5))
     try:
         cm, perm = ts._get_cummat(trajs, case['lag'])
         out.update({'cm': [[float(x).hex() for x in r] for r in cm], 'perm': [[int(x) for x in r] for r in perm]})
